@@ -88,6 +88,7 @@ fn main() {
     // SIGPIPE: std already ignores it for Rust binaries; writes to a closed socket return EPIPE.
     util::calibrator_start();
     env::install_panic_hook();
+    util::install_abort_reporter();
 
     let ctx = Ctx {
         prop: prop.clone(),
@@ -101,21 +102,39 @@ fn main() {
         replay,
     };
 
+    // watchdog of the worker itself: if the run does not come to an end (a library call that never
+    // returns can stop the harness's own loop), what was observed so far is still reported
+    let ctx: &'static Ctx = Box::leak(Box::new(ctx));
+    if let Some(wd) = arg(&args, "--watchdog-s").and_then(|s| s.parse::<u64>().ok()) {
+        let out2 = out.clone();
+        util::spawn_named("watchdog", move || {
+            std::thread::sleep(std::time::Duration::from_secs(wd));
+            ctx.rep.inconclusive(&format!("worker watchdog: run did not end within {} s, partial results reported", wd));
+            let doc = ctx.rep.to_json(seed, shard, ctx.start.elapsed().as_secs_f64()).to_string();
+            match out2 {
+                Some(p) => {
+                    let _ = std::fs::write(&p, doc);
+                }
+                None => println!("{}", doc),
+            }
+            std::process::exit(0);
+        });
+    }
     match prop.as_str() {
-        "C01" => p01::run(&ctx, false),
-        "C06" => p01::run(&ctx, true),
-        "C02" | "C03" | "C09" | "C10" | "C12" | "C16" | "C18" => pconv::run(&ctx),
-        "C04" => p04::run(&ctx),
-        "C05" => p05::run(&ctx),
-        "C07" => p07::run(&ctx),
-        "C08" => p08::run(&ctx),
-        "C11" => p11::run(&ctx),
-        "C13" => p13::run(&ctx),
-        "C14" => p14::run(&ctx),
-        "C15" => p15::run(&ctx),
-        "C17" => p17::run(&ctx),
-        "C19" => p19::run(&ctx),
-        "C20" => p20::run(&ctx),
+        "C01" => p01::run(ctx, false),
+        "C06" => p01::run(ctx, true),
+        "C02" | "C03" | "C09" | "C10" | "C12" | "C16" | "C18" => pconv::run(ctx),
+        "C04" => p04::run(ctx),
+        "C05" => p05::run(ctx),
+        "C07" => p07::run(ctx),
+        "C08" => p08::run(ctx),
+        "C11" => p11::run(ctx),
+        "C13" => p13::run(ctx),
+        "C14" => p14::run(ctx),
+        "C15" => p15::run(ctx),
+        "C17" => p17::run(ctx),
+        "C19" => p19::run(ctx),
+        "C20" => p20::run(ctx),
         "selftest" => selftest(),
         _ => {
             eprintln!("unknown property {}", prop);
